@@ -918,6 +918,8 @@ def plan(prop, tier, seed, known):
         for i in range(n):
             jobs.append(seq_job("recycle%d" % i, seed * 100 + i, "recycle", 4 if q else 8, 250 if q else 400, av, disk=6000))
         jobs.append(probe_job(prop, av))
+        # NoStale: a block cut off and not freed yet never lies below the size again; control: "one block left" taken for "done"
+        jobs += design_jobs("Shrink", ["Shrink"], ["Shrink_all", "Shrink_big"], [("Shrink_slack", "NoStale")], q)
     elif prop == "C13":
         n = 4 if q else 32
         for i in range(n):
